@@ -440,24 +440,44 @@ func runC09(c *Ctx, w *World, r *Report) {
 				bad = "result is not bytes.Compare(...)"
 				continue
 			}
-			a0, a1 := call.Common().Args[0], call.Common().Args[1]
-			bd := fa.BoundsAt(ret.Block(), lenEq)
-			if a0 == ssa.Value(fn.Params[0]) && a1 == ssa.Value(fn.Params[1]) {
-				nfull++
-				if !(bd.HasLo && bd.HasHi && bd.Lo == 0 && bd.Hi == 0) {
-					bad = "whole encodings (mask byte included) are compared on an edge where the byte lengths may differ"
+			// the operands may be chosen first and compared once (x, y := a, b; if la != lb { x, y = a[:la-1], b[:lb-1] }):
+			// the alternatives of the two merges pair up edge by edge
+			type alt struct {
+				a0, a1 ssa.Value
+				conds  []Cond
+			}
+			var alts []alt
+			p0, isP0 := call.Common().Args[0].(*ssa.Phi)
+			p1, isP1 := call.Common().Args[1].(*ssa.Phi)
+			if isP0 && isP1 && p0.Block() == p1.Block() && len(p0.Edges) == len(p1.Edges) {
+				for k := range p0.Edges {
+					pred := p0.Block().Preds[k]
+					cs := append(append([]Cond{}, fa.Conds(pred)...), selfCond(pred, p0.Block())...)
+					alts = append(alts, alt{p0.Edges[k], p1.Edges[k], cs})
 				}
-				continue
+			} else {
+				alts = append(alts, alt{call.Common().Args[0], call.Common().Args[1], fa.Conds(ret.Block())})
 			}
-			s0, ok0 := a0.(*ssa.Slice)
-			s1, ok1 := a1.(*ssa.Slice)
-			if !ok0 || !ok1 || s0.X != ssa.Value(fn.Params[0]) || s1.X != ssa.Value(fn.Params[1]) || s0.Low != nil || s1.Low != nil || s0.High == nil || s1.High == nil {
-				bad = "operands are not (a, b) or (a[:la-1], b[:lb-1])"
-				continue
-			}
-			npay++
-			if !fa.Lin(s0.High).Eq(linAtom("call:builtin len(p0)").Add(linConst(-1))) || !fa.Lin(s1.High).Eq(linAtom("call:builtin len(p1)").Add(linConst(-1))) {
-				bad = "payload comparison does not drop exactly the trailing mask byte of each operand"
+			for _, al := range alts {
+				a0, a1 := al.a0, al.a1
+				bd := fa.boundsFrom(al.conds, lenEq)
+				if a0 == ssa.Value(fn.Params[0]) && a1 == ssa.Value(fn.Params[1]) {
+					nfull++
+					if !(bd.HasLo && bd.HasHi && bd.Lo == 0 && bd.Hi == 0) {
+						bad = "whole encodings (mask byte included) are compared on an edge where the byte lengths may differ"
+					}
+					continue
+				}
+				s0, ok0 := a0.(*ssa.Slice)
+				s1, ok1 := a1.(*ssa.Slice)
+				if !ok0 || !ok1 || s0.X != ssa.Value(fn.Params[0]) || s1.X != ssa.Value(fn.Params[1]) || s0.Low != nil || s1.Low != nil || s0.High == nil || s1.High == nil {
+					bad = "operands are not (a, b) or (a[:la-1], b[:lb-1])"
+					continue
+				}
+				npay++
+				if !fa.Lin(s0.High).Eq(linAtom("call:builtin len(p0)").Add(linConst(-1))) || !fa.Lin(s1.High).Eq(linAtom("call:builtin len(p1)").Add(linConst(-1))) {
+					bad = "payload comparison does not drop exactly the trailing mask byte of each operand"
+				}
 			}
 		}
 		if (nfull != 1 || npay != 1) && bad == "" {
